@@ -117,6 +117,9 @@ class Isomorphism(Generic[ClassType1, ObjType1, ClassType2, ObjType2]):
         # Update ancestors for recursion
         self._ancestors.update(product(eq_path1, eq_path2))
 
+        # Matches recorded from now on may rely on the current pair being valid
+        num_matched = len(self._order_map)
+
         # The number of nonempty children
         n = len(non_empty_ind1)
 
@@ -178,6 +181,11 @@ class Isomorphism(Generic[ClassType1, ObjType1, ClassType2, ObjType2]):
         self._ancestors.difference_update(product(eq_path1, eq_path2))
         self._failed.add((curr1, curr2))
         self._index_data.pop((curr1, curr2), None)
+        # The matches found below were accepted under the hypothesis that the current
+        # pair matches (recursive matches): forget them, they are looked for again.
+        for key in list(self._order_map)[num_matched:]:
+            del self._order_map[key]
+            self._index_data.pop(key, None)
         return False
 
     def _get_eq_descendant(
